@@ -92,6 +92,25 @@ class HttpRelayClient(RelayPoolClient):
             self.ehlo_as = self.relay.ehlo_as
 
     def _handle_request(self, result, envelope):
+        try:
+            self._send_request(result, envelope)
+        except gevent.Timeout:
+            self._fail_request(result, 'Delivery timed out', '4.4.2')
+        except Exception as exc:
+            logging.log_exception(__name__)
+            self._fail_request(result, 'Connection failed: '+str(exc), '4.3.0')
+
+    def _fail_request(self, result, msg, esc):
+        # Whatever went wrong before a response was read, the attempt must
+        # end: report a transient failure and drop the connection.
+        if self.conn:
+            self.conn.close()
+            self.conn = None
+        if not result.ready():
+            reply = Reply('450', ' '.join((esc, msg)))
+            result.set_exception(TransientRelayError(msg, reply))
+
+    def _send_request(self, result, envelope):
         method = self.relay.http_verb
         if not self.conn:
             self._new_conn()
